@@ -164,3 +164,27 @@ func VerifC20Recycle() {
 	}
 	rt.Reach("c20.done")
 }
+
+// VerifC20RecyclerRace: the first ejection (the consumer of recyclerCh schedules the node) and the first
+// successful completion of a request (OnCompleted recovers the node) reach the resource's recycler at the
+// same time, under every interleaving of their lock and atomic operations. Whatever the order, both use
+// one recycler (with two, a node scheduled on one and recovered on the other is recycled although it
+// completed a request successfully).
+func VerifC20RecyclerRace() {
+	rt.SetClockMs(2000000000000)
+	if !verifLoadOutlierRule(0.5, false) {
+		rt.Assert(false, "LoadRules failed for a valid rule")
+		return
+	}
+	addNodeBreakerOfResource("O", "n0")
+	var r1, r2 *Recycler
+	rt.Spawn(func() {
+		r1 = getRecyclerOfResource("O")
+	})
+	rt.Spawn(func() {
+		r2 = getRecyclerOfResource("O")
+	})
+	rt.Join()
+	rt.Reach("c20.race-joined")
+	rt.Assert(r1 != nil && r1 == r2 && getRecyclerOfResource("O") == r1, "a resource has one recycler: concurrent first users get the same object")
+}
